@@ -80,10 +80,15 @@ PLAIN = [(pol, fl) for pol in ("fifo", "lru", "lfu", "arc", "random", "tlru") fo
 PLAIN_RESULT = [(pol, fl, r) for (pol, fl, r) in (("fifo", "global", 3), ("lru", "async", 3), ("arc", "global", 4), ("lfu", "async", 4))]
 
 
+# TTL + entry limit, no predicates, not a Result (scheduled calls-only programs that start from EXPIRED entries; C06/C18)
+TTL_LIMIT = [("lru", "global"), ("lfu", "global"), ("arc", "global"), ("random", "global"),
+             ("fifo", "async"), ("lru", "async"), ("lfu", "async"), ("tlru", "async")]
+
+
 def gen(seed, n):
     """the first 48 functions are random (seeded); then the 4 fixed ones (plain, F7 witnesses); then the systematic
     block: flavour x policy with limit + invalidate_on, and flavour x policy with max_memory + cache_if"""
-    base_n = n - len(SYSTEMATIC) - len(EXTRA) - len(PLAIN) - len(PLAIN_RESULT)
+    base_n = n - len(SYSTEMATIC) - len(EXTRA) - len(PLAIN) - len(PLAIN_RESULT) - len(TTL_LIMIT)
     fns = gen_random(seed, base_n)
     rng = random.Random(seed * 7 + 3)
     for k, sy in enumerate(SYSTEMATIC):
@@ -114,6 +119,11 @@ def gen(seed, n):
         fns.append(dict(i=i, real_result=False, is_async=(fl == "async"), policy=pol, limit=None, maxmem=None, ttl=None, fw=None,
                         scope=None, sig=SIGS[1 + k % 2], ret=RETS[r], name=None, tags=[], events=[], deps=[],
                         cache_if=False, inv_on=False, thread_scope=False))
+    for k, (pol, fl) in enumerate(TTL_LIMIT):
+        i = base_n + len(SYSTEMATIC) + len(EXTRA) + len(PLAIN) + len(PLAIN_RESULT) + k
+        fns.append(dict(i=i, real_result=False, is_async=(fl == "async"), policy=pol, limit=2 + k % 2, maxmem=None, ttl=1 + k % 2,
+                        fw=FWS[2] if pol == "tlru" else None, scope=None, sig=SIGS[1 + k % 2], ret=RETS[k % 2], name=None,
+                        tags=([TAGS[1]] if k % 3 == 0 else []), events=[], deps=[], cache_if=False, inv_on=False, thread_scope=False))
     return fns
 
 
